@@ -2,6 +2,9 @@
 
 use crate::framework::Family;
 
+pub mod aio;
+pub mod async_fleet;
+pub mod async_tcp;
 pub mod c03_common;
 pub mod client_blocking;
 pub mod server_blocking;
@@ -24,6 +27,8 @@ pub fn all() -> &'static [Family] {
         v.extend(hostile::families());
         v.extend(svs::families());
         v.extend(registry_tree::families());
+        v.extend(async_tcp::families());
+        v.extend(async_fleet::families());
         v
     })
 }
